@@ -4,6 +4,7 @@ import (
 	"fmt"
 	"strconv"
 	"strings"
+	"time"
 
 	simdjson "github.com/minio/simdjson-go"
 )
@@ -232,5 +233,103 @@ func aliasChainCase(rn *runner, cr *rng, steps int, note string) {
 	rn.seen[cls] = true
 	if !strings.HasPrefix(out, "ok ") {
 		rn.disagree(disagreement{Kind: "spec", Ops: []string{op}, At: 0, Impl: out, Other: "ok <every live document reads as it did when it was made>", Note: note})
+	}
+}
+
+// Handle chains (C05, C15): one ParsedJson handle kept BY VALUE (`h := *pj; Parse(b, &h)`: the private parser state
+// survives a failed call, which the usual `pj, err = Parse(b, pj)` loop loses) fed a sequence of accepted and rejected
+// documents — among them rejected ones that pass stage 1, need several index buffers although they stay on the
+// synchronous path (≤ 8 KiB, > 1408 structurals) and fail early in stage 2, or end while containers are still open.
+// Every call must return (no panic, no hang), and every accepted document must read as a fresh parse of it reads.
+// Self-describing op `handle <seed> <steps>`.
+func runHandleChain(op string) string {
+	ws := strings.Fields(op)
+	if len(ws) != 3 {
+		return "bad-op"
+	}
+	seed, _ := strconv.ParseUint(ws[1], 10, 64)
+	steps, _ := strconv.Atoi(ws[2])
+	cr := &rng{s: seed}
+	var h simdjson.ParsedJson
+	have := false
+	var log []string
+	for s := 0; s < steps; s++ {
+		var text, kind string
+		n := 1450 + cr.intn(900)
+		switch cr.intn(8) {
+		case 0: // dense, rejected early in stage 2, several index buffers, synchronous path
+			text, kind = "[}"+strings.Repeat(",1", n)+"]", "dense-bad-early"
+		case 1: // dense, rejected late
+			text, kind = "["+strings.Repeat("1,", n)+"}]", "dense-bad-late"
+		case 2: // ends while containers are open (the index stream runs out)
+			text, kind = strings.Repeat("[", 1+cr.intn(6))+"1"+strings.Repeat("]", cr.intn(3)), "open-at-end"
+			if cr.chance(1, 2) {
+				text = "{\"a\":{\"b\":1}"
+			}
+		case 3: // dense and accepted
+			text, kind = "["+strings.Repeat("1,", n)+"1]", "dense-ok"
+		case 4: // above the asynchronous threshold, rejected
+			text, kind = "["+strings.Repeat("{\"k\":[1,2,3]},", 700+cr.intn(300))+"}]", "async-bad"
+		default:
+			cfg := defaultCfg(cr)
+			cfg.maxDepth, cfg.maxMembers = 1+cr.intn(3), 2+cr.intn(6)
+			text, kind = cr.doc(cfg), "doc"
+		}
+		var reuse *simdjson.ParsedJson
+		if have {
+			reuse = &h
+		}
+		type res struct {
+			pj  *simdjson.ParsedJson
+			err error
+			pan interface{}
+		}
+		ch := make(chan res, 1)
+		in := []byte(text)
+		go func() {
+			defer func() {
+				if r := recover(); r != nil {
+					ch <- res{pan: r}
+				}
+			}()
+			pj, err := simdjson.Parse(in, reuse)
+			ch <- res{pj: pj, err: err}
+		}()
+		var r res
+		select {
+		case r = <-ch:
+		case <-time.After(30 * time.Second):
+			return fmt.Sprintf("step %d (%s, %d bytes): Parse did not return within 30 s; history: %s", s, kind, len(text), strings.Join(log, " "))
+		}
+		if r.pan != nil {
+			return fmt.Sprintf("step %d (%s, %d bytes): Parse panicked: %v; history: %s", s, kind, len(text), r.pan, strings.Join(log, " "))
+		}
+		fresh, ferr := simdjson.Parse([]byte(text), nil)
+		if (r.err == nil) != (ferr == nil) {
+			return fmt.Sprintf("step %d (%s, %d bytes): with the reused handle err=%v, with a fresh one err=%v; history: %s", s, kind, len(text), r.err, ferr, strings.Join(log, " "))
+		}
+		if r.err == nil {
+			if got, want := chainText(r.pj), chainText(fresh); got != want {
+				return fmt.Sprintf("step %d (%s): the reused handle reads %q, a fresh parse reads %q; history: %s", s, kind, clipS(got), clipS(want), strings.Join(log, " "))
+			}
+			h = *r.pj
+			have = true
+			log = append(log, kind+":ok")
+		} else {
+			log = append(log, kind+":err")
+			// the handle keeps whatever the failed call left in it
+		}
+	}
+	return "ok " + strconv.Itoa(len(log))
+}
+
+func handleChainCase(rn *runner, cr *rng, steps int, note string) {
+	op := fmt.Sprintf("handle %d %d", cr.u64(), steps)
+	out := runHandleChain(op)
+	rn.rep.Evaluations++
+	rn.rep.Distribution["handle-chain"]++
+	rn.seen["handle-chain"] = true
+	if !strings.HasPrefix(out, "ok ") {
+		rn.disagree(disagreement{Kind: "spec", Ops: []string{op}, At: 0, Impl: out, Other: "ok <every call returns; accepted documents read as a fresh parse>", Note: note})
 	}
 }
